@@ -1,6 +1,7 @@
 CONSTANTS
-  Workers <- MCNoWorkers
-  NTs <- MCNTs
+  Workers <- Workers_wany1
+  NTs <- NTs_wany1
+  ThreadNames <- Threads_wany1
   WyFix = TRUE
   AllowSpurious = FALSE
 INIT Init_wany1
